@@ -14,7 +14,8 @@ THEOREMS = [(M, "NQ.C20." + n) for n in [
     "parity_cases_match_model", "parity_cases_cover", "parity_observable_ancilla",
     "parity_observable_single", "basis_change_involutive", "cnots_target_ancilla",
     "single_flip_is_layer", "parity_meas_sound", "set_state", "rot_compose", "set_state_shape_ok",
-    "set_state_angles_ok", "parity_call_restores_allocation", "parity_meas_repeated"]]
+    "set_state_angles_ok", "parity_call_restores_allocation", "parity_meas_repeated",
+    "parity_stored_match_model", "parity_outcome_on_controller"]]
 TRANSLATORS = ["toolbox"]
 LEVEL_TEXT = (
     "Lean theorems: toffoli_eq / t_inverse_eq — the gate sequences the controller really received (recorded by "
@@ -27,7 +28,10 @@ LEVEL_TEXT = (
     "bit; every row of the conjugation tables (X,Y,Z,H,K,S; CNOT) is kernel-checked against the exact matrices; "
     "set_state — ring identity R_z(phi)R_y(theta)|0> = e^{-i phi/2}(cos|0> + e^{i phi} sin|1>). Tie: the model's "
     "event trace and returned values equal the recorded ones on all 168 signed strings of length <= 3 (kernel) "
-    "and on random longer strings (differential stream); the calculus is compared with numpy conjugation.")
+    "and on random longer strings (differential stream); the calculus is compared with numpy conjugation. "
+    "parity_outcome_on_controller: the returned handle is a controller-side array entry holding the SIGNED parity "
+    "(kind and raw shared-memory value of all 168 cases kernel-checked), so host reads at any time, feed-forward, "
+    "controller-side add and raw memory reads agree; parity_meas_repeated: any number of calls, allocation restored.")
 LEVEL_NOTE = (
     "Trusted: Lean kernel; Heisenberg-picture measurement (measuring Z after C = measuring C^dagger Z C before); "
     "locality of conjugation on tensor factors; Z[zeta_8] embeds in C; angle addition for (cos, sin) pairs; "
@@ -284,6 +288,121 @@ def oracle_parity_sequences(ctx, res, strings):
             s.close()
 
 
+def _true_bit(signed, psi, post):
+    """the signed-parity bit b with post = P_b psi / |P_b psi| (model-free: read off the state)"""
+    n2 = len(psi)
+    best, bestd = None, None
+    for b in (0, 1):
+        want = ((np.eye(n2) + (-1) ** b * signed) / 2) @ psi
+        p = float(np.vdot(want, want).real)
+        if p < 1e-12:
+            continue
+        d = phase_dist(post, want / math.sqrt(p))
+        if bestd is None or d < bestd:
+            best, bestd = b, d
+    return best, bestd
+
+
+def oracle_parity_consumption(ctx, res, strings):
+    """Every way an outcome of parity_meas can be consumed, and WHEN the host reads it.
+    One connection, several subroutines. In the subroutine of each call the outcome is additionally
+    (a) fed forward (`with m.if_eq(1): fresh.X()`, the fresh qubit is measured), (b) added into an array
+    entry on the controller; after the flush (c) the raw array entry / register is read from shared memory.
+    Each handle is read by the host EITHER right after its own flush OR for the first time only after all
+    later subroutines (which measure other things, also into registers) have run. The reference bit is
+    read off the post-measurement state. (Re-reading a handle is not exercised: F41, C05.)"""
+    from harness import pipeline_sv as P
+    from netqasm.sdk.futures import Future, RegFuture
+    from netqasm.sdk.qubit import Qubit
+    tb = _tb()
+    rng = ctx.rng
+    n_seq = 120 if ctx.thorough else 30
+
+    def fail(what, steps, k, detail):
+        res.failures.append({"what": what, "kf": None,
+                             "input": {"steps": [list(x) for x in steps], "failing_step": k, **detail}})
+
+    for it in range(n_seq):
+        n = rng.choice([1, 2, 3])
+        pool = [b for b in strings if len(b) == n]
+        steps = [(rng.choice(pool), rng.random() < 0.5, rng.choice(["none", "feed", "sum", "both"]),
+                  (rng.random() < 0.5) if it % 2 else (k > 0))  # read immediately?
+                 for k in range(rng.choice([2, 3]))]
+        s = P.Session(simulate=True, max_qubits=10)
+        deferred = []
+        try:
+            conn = s.conn
+            qs = s.qubits(n)
+            psi = rand_state(rng, n)
+            s.set_state(psi)
+            for k, (bases, negative, consume, read_now) in enumerate(steps):
+                signed = (-1 if negative else 1) * pauli_matrix(bases)
+                m = tb.parity_meas(qs, ("-" if negative else "") + bases)
+                handles = {}
+                if isinstance(m, (Future, RegFuture)):
+                    if consume in ("feed", "both"):
+                        f = Qubit(conn)
+                        with m.if_eq(1):
+                            f.X()
+                        handles["feed-forward (conditional X on a fresh qubit, measured)"] = f.measure()
+                    if consume in ("sum", "both"):
+                        acc = conn.new_array(1, init_values=[0]).get_future_index(0)
+                        acc.add(m.reg if isinstance(m, RegFuture) else m)
+                        handles["controller-side add into an array entry"] = acc
+                s.flush()
+                res.evaluations += 1
+                res.count("oracle:parity-consumption:" + consume)
+                res.count("oracle:parity-read:" + ("immediate" if read_now else "late"))
+                res.nontrivial.add(("parity-consume", it, k, bases, negative, consume, read_now))
+                post = s.state()
+                bit, dist = _true_bit(signed, psi, post)
+                if bit is None or dist > 1e-8:
+                    fail("parity_meas does not measure the requested signed Pauli string when used repeatedly "
+                         "on one connection", steps[:k + 1], k, {"psi": fmt_state(psi), "post_state": fmt_state(post)})
+                    break
+                psi = post
+                # (c) what the controller itself holds for the returned handle
+                if isinstance(m, Future) and isinstance(m._index, int):
+                    raw = conn.shared_memory.get_array_part(address=m._address, index=m._index)
+                    if raw != bit:
+                        fail("the controller-side value of a parity_meas outcome is not the signed parity",
+                             steps[:k + 1], k, {"consumed_by": "raw array entry in shared memory", "got": raw,
+                                                "expected": bit})
+                checks = [("host read of the returned handle", m)] + list(handles.items())
+                if read_now:
+                    _judge_reads(res, checks, bit, steps[:k + 1], k, "right after its own flush", fail)
+                else:
+                    deferred.append((k, checks, bit))
+            else:
+                # later subroutines that measure other things, into a register and into an array
+                want1 = 1 - deferred[0][2] if deferred else rng.randrange(2)
+                for rounds in range(rng.choice([1, 2])):
+                    d1, d2 = Qubit(conn), Qubit(conn)
+                    if want1:
+                        d1.X()
+                    else:
+                        d2.X()
+                    d1.measure(store_array=False)
+                    d2.measure()
+                    s.flush()
+                for k, checks, bit in deferred:
+                    _judge_reads(res, checks, bit, steps, k, "first read after later subroutines", fail)
+        finally:
+            s.close()
+
+
+def _judge_reads(res, checks, bit, steps, k, when, fail):
+    for how, h in checks:
+        got = h if isinstance(h, int) and not hasattr(h, "value") else h.value
+        if got != bit:
+            what = ("a parity_meas outcome read by the host for the first time after later subroutines is not "
+                    "the measured parity" if when.startswith("first") and how.startswith("host")
+                    else "a parity_meas outcome consumed on the controller does not carry the signed parity"
+                    if not how.startswith("host") else
+                    "parity_meas returns a bit that is not the measured signed parity")
+            fail(what, steps, k, {"consumed_by": how, "read": when, "got": got, "expected": bit})
+
+
 # ------------------------------------------------------------------ correspondence
 
 def ev_json(e):
@@ -301,12 +420,16 @@ def stream_parity_model(ctx, res, strings):
     for bases, out in zip(strings, outs):
         for neg in (False, True):
             t0, v0 = T.run_parity(bases, neg, 0)
+            k0, c0 = T.LAST_STORED[0]
             t1, v1 = T.run_parity(bases, neg, 1)
+            k1, c1 = T.LAST_STORED[0]
             res.evaluations += 1
             res.count("model:parity-len:%d" % len(bases))
             res.nontrivial.add(("parity-model", bases, neg))
-            code = {"trace": [ev_json(e) for e in t0], "res": [v0, v1]}
-            model = {"trace": out["trace"], "res": out["res"][1 if neg else 0]}
+            # host-side values AND what the controller holds for the returned handle (kind, raw value)
+            code = {"trace": [ev_json(e) for e in t0], "res": [v0, v1], "kind": [k0, k1], "stored": [c0, c1]}
+            model = {"trace": out["trace"], "res": out["res"][1 if neg else 0],
+                     "kind": [out["kind"], out["kind"]], "stored": out["stored"][1 if neg else 0]}
             if [ev_json(e) for e in t1] != code["trace"]:
                 res.failures.append({"what": "parity_meas circuit depends on the measurement outcome", "kf": None,
                                      "input": {"bases": bases}})
@@ -457,6 +580,7 @@ def run(ctx):
     oracle_parity(ctx, res, short + (all_strings(4) + longer[:40] if ctx.thorough else longer[:6]))
     oracle_parity_sequences(ctx, res, short)
     oracle_parity_repeated(ctx, res)
+    oracle_parity_consumption(ctx, res, short)
     stream_parity_model(ctx, res, (short if ctx.thorough else short[::4]) + longer)
     stream_parity_sequence(ctx, res, 400 if ctx.thorough else 60)
     stream_pullback(ctx, res, short + [s for s in longer if len(s) <= 4])
@@ -472,6 +596,7 @@ def replay(ctx, payload):
     oracle_parity(ctx, res, all_strings(1) + all_strings(2) + all_strings(3))
     oracle_parity_sequences(ctx, res, all_strings(1) + all_strings(2) + all_strings(3))
     oracle_parity_repeated(ctx, res)
+    oracle_parity_consumption(ctx, res, all_strings(1) + all_strings(2) + all_strings(3))
     want = (payload.get("failure") or {}).get("what")
     still = [f for f in res.failures if want is None or f["what"] == want]
     for f in still[:3]:
